@@ -15,7 +15,7 @@ theorem trim_abs (c : Cache) (p : Option Str) (now : Int) (front : Bool) :
   rfl
 
 /-- what the specification returns for the item of a queue row -/
-theorem result_item {c : Cache} {n : Nat} (hok : QOk c n) {p : Option Str} {r : Row}
+theorem result_item {c : Cache} {n : Nat} (hok : QOkL c n) {p : Option Str} {r : Row}
     (hr : r ∈ c.queueRows p) (E : Externals) (et tg : Bool) :
     QSpec.result E c.cfg p et tg (itemOfRow c r) = rowResult c E et tg r := by
   obtain ⟨m, h1, h2, -, -⟩ := hok.qok p r hr
@@ -82,7 +82,7 @@ theorem qr_pull_step (c : Cache) (q : QSpec.State) (n : Nat) (clock now : Int) (
     QRefines (c.pull E now p front et tg).1 (QSpec.pull q E c.cfg now p front et tg).1 now ∧
     QOk (c.pull E now p front et tg).1 n ∧ (c.pull E now p front et tg).1.cfg = c.cfg := by
   obtain ⟨f, hsh, hf, hq, ho⟩ := qr_pullLoop E now p front et tg n _ c (c.rows.length + 1) rfl
-    (by have := queueRows_length_le c p; omega) hok
+    (by have := queueRows_length_le c p; omega) hok.toL
   have hg := hok.good
   have habs := absQueue_shrunk hg hsh p
   unfold pull
@@ -102,7 +102,7 @@ theorem qr_pull_step (c : Cache) (q : QSpec.State) (n : Nat) (clock now : Int) (
     simp only at habs
     simp only [Option.map_some]
     have hrq : r ∈ c.queueRows p := trimBy_sub _ _ _ _ (endOf_mem he)
-    refine ⟨(result_item hok hrq E et tg).symm, ?_, hok.shrunk hsh, hsh.cfg⟩
+    refine ⟨(result_item hok.toL hrq E et tg).symm, ?_, hok.shrunk hsh, hsh.cfg⟩
     apply qrefines_shrunk_put hok hr hn hsh hf
     rw [habs, dropEnd_map]
 
@@ -114,7 +114,7 @@ theorem qr_peek_step (c : Cache) (q : QSpec.State) (n : Nat) (clock now : Int) (
     QRefines (c.peek E now p front et tg).1 (QSpec.peek q E c.cfg now p front et tg).1 now ∧
     QOk (c.peek E now p front et tg).1 n ∧ (c.peek E now p front et tg).1.cfg = c.cfg := by
   obtain ⟨f, hsh, hf, hq, ho⟩ := qr_peekLoop E now p front et tg n _ c (c.rows.length + 1) rfl
-    (by have := queueRows_length_le c p; omega) hok
+    (by have := queueRows_length_le c p; omega) hok.toL
   have hg := hok.good
   have habs := absQueue_shrunk hg hsh p
   unfold peek
@@ -130,7 +130,7 @@ theorem qr_peek_step (c : Cache) (q : QSpec.State) (n : Nat) (clock now : Int) (
   | some r =>
     simp only [Option.map_some]
     have hrq : r ∈ c.queueRows p := trimBy_sub _ _ _ _ (endOf_mem he)
-    exact ⟨(result_item hok hrq E et tg).symm, qrefines_shrunk_put hok hr hn hsh hf _ habs,
+    exact ⟨(result_item hok.toL hrq E et tg).symm, qrefines_shrunk_put hok hr hn hsh hf _ habs,
       hok.shrunk hsh, hsh.cfg⟩
 
 end DC.Cache
